@@ -34,7 +34,7 @@ func genC10(t *rapid.T, _ *evid.Rec) caseC10 {
 }
 
 type errTuple struct {
-	Line, Pos, Len int
+	Line, Pos, Len  int
 	Code, Text, Msg string
 }
 
